@@ -493,6 +493,8 @@ def _register(ctx, m, R, data):
 
 NAME_POOL = ['.text', '.data', '.bss', '.rodata', '.symtab', '.strtab', '.shstrtab', '.dynsym', '.dynstr', '.rela.text',
              '.rel.dyn', '.note.gnu.build-id', '.stab', '.stab', '.debug_info', '.a', 'a', '.ARM.attributes',
+             # neighbours of the one name that selects a class (.stab): longer, shorter, other case, other prefix - plain sections all
+             '.stable', '.stab_like', '.stabilizer.rodata', '.sta', '.STAB', 'x.stab', '.stabs', '.stabstr',
              '.gnu.version', '.comment', '.text.startup', 'startup', 'été', '.中文', 'x' * 70, '.init_array', '']
 
 
